@@ -96,7 +96,7 @@ class QuaMapMeta:
         """Writes the metadata as a Dictionary and returns it"""
         return {
             "AudioFile": self.audio_file,
-            "SongPreviewTime": self.song_preview_time,
+            "SongPreviewTime": int(self.song_preview_time),
             "BackgroundFile": self.background_file,
             "BannerFile": self.banner_file,
             "Genre": self.genre,
